@@ -13,15 +13,13 @@ import (
 
 func TestVerifProbe(t *testing.T) {
 	synctest.Test(t, func(t *testing.T) {
-		cfg := config.Interface{Name: "v0", Advertise: true, MinInterval: 3 * time.Second, MaxInterval: 4 * time.Second,
+		cfg := config.Interface{Name: "v0", Advertise: true, MinInterval: 1800 * time.Second, MaxInterval: 1800 * time.Second,
 			HopLimit: 64, DefaultLifetime: 12 * time.Second, Plugins: []plugin.Plugin{&plugin.LLA{}}}
 		v := newVAdvertiser(cfg, func() bool { return true })
 		cancel, done := v.run()
-		time.Sleep(10 * time.Second)
+		time.Sleep(3 * time.Second)
 		v.conn.readC <- rs("::")
-		time.Sleep(100 * time.Millisecond)
-		v.conn.readC <- rs("fe80::2")
-		time.Sleep(11 * time.Second)
+		time.Sleep(30 * time.Second)
 		cancel()
 		err := <-done
 		synctest.Wait()
